@@ -405,7 +405,13 @@ impl Scenario for LenWrap {
                     let mask: u128 = if dom == 61 { u64::MAX as u128 } else { u128::MAX };
                     let got = hd.0.len();
                     obs.pos((after & u64::MAX as u128) as u64);
-                    if got != (after & mask) {
+                    // accepted accountings: bytes fed (what the code does today), or bytes compressed so far
+                    // (partial / last full block counted at finalisation) - the digest comparison below is
+                    // what the property constrains
+                    let fed = hd.1.len() as u128;
+                    let lazy1 = hd.2 + fed - (fed % b as u128);
+                    let lazy2 = if fed > 0 && fed % b as u128 == 0 { hd.2 + fed - b as u128 } else { lazy1 };
+                    if got != (after & mask) && got != (lazy1 & mask) && got != (lazy2 & mask) {
                         return Err(Violation::new("counter-invariant", i, format!("{:#x}", after & mask), format!("{:#x}", got), format!("{}: message length counter after update", name)));
                     }
                 }
